@@ -41,8 +41,10 @@ impl VecSet {
 
 /// `n` vector sources over a common small area with partly overlapping coverage
 pub fn gen_vector_sets(rng: &mut Rng, n: usize, go: &imvt::GenOpts, mixed_comp: bool, enc: &imvt::EncOpts) -> Vec<VecSet> {
-	let z0 = rng.below(10) as u8;
-	let levels: Vec<u8> = (0..rng.range(1, 3) as u8).map(|i| z0 + i).collect();
+	// now and then the deepest levels there are
+	let z0 = if rng.chance(0.15) { 29 + rng.below(2) as u8 } else { rng.below(10) as u8 };
+	let mut levels: Vec<u8> = (0..rng.range(1, 3) as u8).map(|i| (z0 + i).min(31)).collect();
+	levels.dedup();
 	let anchors: BTreeMap<u8, (u32, u32)> = levels
 		.iter()
 		.map(|z| {
@@ -148,10 +150,38 @@ pub fn gen_csv(rng: &mut Rng) -> CsvSpec {
 		});
 		r.insert("flag".to_string(), (*rng.pick(&["true", "false"])).to_string());
 		r.insert("note".to_string(), format!("n{}", rng.below(9)));
+		// numbers just inside / outside the 32-bit range (a joined negative number becomes a signed integer)
+		if rng.chance(0.15) {
+			r.insert("population".to_string(), (*rng.pick(&["-1500000000", "1700000000", "2147483647", "-2147483648", "1073741824", "-1073741825", "4294967296"])).to_string());
+		}
+		// cells as spreadsheets write them: a separator, a quote, a line break or a lone carriage return inside a
+		// cell puts the cell in quotes; what is between the quotes is the value, byte for byte
+		if rng.chance(0.2) {
+			r.insert("note".to_string(), (*rng.pick(&["a,b", "two\r\nlines", "cr\rinside", "say \"hi\"", "\r", "line\nfeed", "tab\there", "\r\n"])).to_string());
+		}
 		r.retain(|k, _| cols.contains(&k.as_str()));
-		text.push_str(&cols.iter().map(|c| r[*c].clone()).collect::<Vec<_>>().join(","));
-		text.push('\n');
-		rows.insert(id, r);
+		let cell = |v: &str, rng: &mut Rng| -> String {
+			if v.contains(['"', ',', '\r', '\n']) || (!v.is_empty() && !v.starts_with(' ') && rng.chance(0.05)) {
+				format!("\"{}\"", v.replace('"', "\"\""))
+			} else {
+				v.to_string()
+			}
+		};
+		text.push_str(&cols.iter().map(|c| cell(&r[*c], rng)).collect::<Vec<_>>().join(","));
+		text.push_str(if rng.chance(0.1) { "\r\n" } else { "\n" });
+		rows.insert(id.clone(), r.clone());
+		// a second row whose id differs from this one by a trailing carriage return only (inside quotes): another key
+		if rng.chance(0.08) && cols.len() > 1 {
+			let mut r2 = r.clone();
+			let id2 = format!("{id}\r");
+			r2.insert("id".to_string(), id2.clone());
+			for c in &cols[1..] {
+				r2.insert(c.to_string(), "other".to_string());
+			}
+			text.push_str(&cols.iter().map(|c| cell(&r2[*c], rng)).collect::<Vec<_>>().join(","));
+			text.push('\n');
+			rows.insert(id2, r2);
+		}
 	}
 	CsvSpec { text, id_col, rows }
 }
@@ -159,6 +189,10 @@ pub fn gen_csv(rng: &mut Rng) -> CsvSpec {
 /// the same table with the value cells of every row moved to the previous row (ids stay): other content, the
 /// same byte length. None if that changes nothing (no value columns, fewer than two rows, equal rows).
 pub fn csv_second_generation(csv: &CsvSpec) -> Option<CsvSpec> {
+	// (only for tables whose cells are plain: one row per line, no quoting)
+	if csv.text.contains(['"', '\r']) {
+		return None;
+	}
 	let mut lines = csv.text.lines();
 	let header = lines.next()?.to_string();
 	let cols: Vec<&str> = header.split(',').collect();
